@@ -579,6 +579,46 @@ pub fn gen_c16_color(sh: &mut Shards, o: &Opts) -> u64 {
         emit_io(sh, "hslgrey", "", w, h, img, &[("out", hsl_of(img, w, h))], false);
         n += 2 * img.len() as u64;
     }
+    // greys NEXT TO colours (only the grey pixels are judged): small images, and frames of more than 2^20 pixels in the
+    // four shapes (sizes not divisible by 4 included), probed at the usual positions plus wherever the whole-frame result
+    // differs from the same pixels converted in small pieces
+    let mut mixed: Vec<[f32; 3]> = Vec::new();
+    for i in 0..(if o.thorough { 4096 } else { 512 }) {
+        let v = if i % 5 == 0 { [0.0f32, 1.0, 0.5, 0.18, 2f32.powi(-12)][(i / 5) % 5] } else { rng.f32_in(0.0, 1.0) };
+        mixed.push([v, v, v]);
+        mixed.push([rng.f32_in(0.0, 1.0), rng.f32_in(0.0, 1.0), rng.f32_in(0.0, 1.0)]);
+        if i % 3 == 0 {
+            mixed.push([v, v, v]);
+        }
+    }
+    for (at, w, h) in cut_images(mixed.len(), 8) {
+        let img = &mixed[at..at + w * h];
+        emit_io(sh, "xybgrey", "\"mix\":1,", w, h, img, &[("out", xyb_of(img, w, h))], false);
+        emit_io(sh, "hslgrey", "\"mix\":1,", w, h, img, &[("out", hsl_of(img, w, h))], false);
+        n += 2 * img.len() as u64;
+    }
+    for (hw, hh) in huge_shapes(o, 5) {
+        let npx = hw * hh;
+        let big: Vec<[f32; 3]> = (0..npx)
+            .map(|i| {
+                if i % 3 != 1 {
+                    let v = ((i as u64 * 2_654_435_761) % 4099) as f32 / 4098.0;
+                    [v, v, v]
+                } else {
+                    [rng.f32_in(0.0, 1.0), rng.f32_in(0.0, 1.0), rng.f32_in(0.0, 1.0)]
+                }
+            })
+            .collect();
+        let mut idx = crate::util::probe_indices(npx, hw, &mut rng);
+        let whole = xyb_of(&big, hw, hh);
+        crate::util::screen_idx(&mut idx, &whole, &big, &xyb_of);
+        emit_io_probe(sh, "xybgrey", "\"mix\":1,", hw, hh, &big, &[("out", whole)], &idx, false);
+        let mut idx = crate::util::probe_indices(npx, hw, &mut rng);
+        let whole = hsl_of(&big, hw, hh);
+        crate::util::screen_idx(&mut idx, &whole, &big, &hsl_of);
+        emit_io_probe(sh, "hslgrey", "\"mix\":1,", hw, hh, &big, &[("out", whole)], &idx, false);
+        n += 2 * idx.len() as u64;
+    }
     // primaries: greys in [-0.5, 2] (the C06 domain), every primaries set, both directions
     let np = if o.thorough { 1024 } else { 96 };
     let pg: Vec<[f32; 3]> = (0..=np).map(|i| -0.5 + 2.5 * i as f32 / np as f32).chain([0.0, 1.0, 0.18].into_iter()).map(|v| [v, v, v]).collect();
